@@ -71,9 +71,10 @@ Definition replicas_of (st : ast) (w : Z) : Z :=
 
 (* ---------- forEachAvailableMigrationJobs ----------
    [arb] = the pod under test is being arbitrated (checkPodArbitrating): pending jobs count only
-   once they have passed arbitration *)
+   once they have passed arbitration, i.e. are in the arbitrator's map or (repaired in bc5a78a: the
+   map is lost on a restart) carry the passed-arbitration annotation *)
 Definition avail (arb : bool) (j : job) : bool :=
-  j_api j && ((j_phase j =? 1) || ((j_phase j =? 0) && (negb arb || j_arb j))).
+  j_api j && ((j_phase j =? 1) || ((j_phase j =? 0) && (negb arb || j_arb j || j_passed j))).
 
 (* existingPodMigrationJob *)
 Definition has_job (arb : bool) (st : ast) (v : pod) : bool :=
@@ -229,7 +230,7 @@ Definition filter_pod (c : cfg) (st : ast) (p : pod) : bool :=
 Inductive op :=
 | OAdd (j : Z) | ORound (fail : Z) | OSetPhase (j ph : Z) | ODelete (j : Z)
 | OSetReady (p : Z) (b : bool) | ODeletePod (p : Z) | OFilter (p : Z) | OEvict (j : Z)
-| OSetPodState (p v : Z) | ONop.
+| OSetPodState (p v : Z) | ORestart | ONop.
 
 Definition upd_job (st : ast) (jid : Z) (f : job -> job) : ast :=
   mkA (a_pods st) (a_wls st) (map (fun j => if j_id j =? jid then f j else j) (a_jobs st)).
@@ -270,6 +271,11 @@ Definition set_pod_state (v : Z) (p : pod) : pod :=
              (if v =? 1 then p_dead p else (v =? 2) || (v =? 3))
   else p.
 
+(* a fresh arbitrator instance (restart / leader change): empty arbitrated map, and the informer's
+   initial Create events put every job that exists in the API into the waiting collection *)
+Definition restart_job (j : job) : job :=
+  mkJob (j_id j) (j_pod j) (j_time j) (j_created j) (j_api j) (j_phase j) (j_passed j) (j_api j) false false.
+
 (* result: -1 none, 0/1 verdict of Arbitrator.Filter *)
 Definition step (c : cfg) (st : ast) (o : op) : ast * Z :=
   match o with
@@ -295,6 +301,7 @@ Definition step (c : cfg) (st : ast) (o : op) : ast * Z :=
                end
       | None => (st, -1)
       end
+  | ORestart => (mkA (a_pods st) (a_wls st) (map restart_job (a_jobs st)), -1)
   | ONop => (st, -1)
   end.
 
